@@ -1,5 +1,8 @@
 import XmppModel.Model.Negotiate
 import XmppModel.Lemmas.Negotiate
+import XmppModel.Lemmas.NegotiateReady
+import XmppModel.Lemmas.NegotiateOnce
+import XmppModel.Lemmas.NegotiateAdv
 /-!
 # C01 — features are negotiated only when allowed, in order, at most once
 
@@ -54,5 +57,155 @@ theorem C01_monotone {c : Conf} (h : Reach C O st0 script picks c) : sub st0 c.s
   have := C01_monotone_run (C := C) (O := O) (init st0 script picks) 0 n
   rw [Nat.zero_add] at this
   exact this
+
+/-! ### at most once per stream -/
+
+theorem invD_reach {c : Conf} (h : Reach C O st0 script picks c) : InvD c := by
+  refine reach_ind (P := InvD) ?_ (fun c _ hc => invD_step C O c hc) c h
+  refine ⟨True.intro, ?_, fun _ _ => rfl⟩
+  intro _ ns hns
+  cases hns
+
+/-- **at most once per stream**: reading the trace newest first, every `Negotiate` call is for
+a namespace that has not been negotiated successfully since the last stream header
+(`segNs`: namespaces negotiated since the last header event) -/
+theorem C01_once {c : Conf} (h : Reach C O st0 script picks c) : OnceOK c.tr := (invD_reach h).ok
+
+/-- unfolded form of `C01_once`: if the trace is `l₁ ++ neg f … :: l₂` (so `l₂` is what happened
+before that call), `f`'s namespace was not negotiated in `l₂` since the last header -/
+theorem C01_once_at {c : Conf} (h : Reach C O st0 script picks c) (l₁ l₂ : List Ev)
+    {f : Feature} {st : St} {req forced srv : Bool} {r : NegRes}
+    (ht : c.tr = l₁ ++ Ev.neg f st req forced srv r :: l₂) : f.name.ns ∉ segNs l₂ := by
+  have hok := C01_once h
+  rw [ht] at hok
+  clear ht
+  induction l₁ with
+  | nil => exact hok.1
+  | cons e l ih => exact ih hok.2
+
+/-! ### a restart begins with a fresh stream header -/
+
+theorem invE_reach {c : Conf} (h : Reach C O st0 script picks c) : InvE c := by
+  refine reach_ind (P := InvE) ?_ (fun c _ hc => invE_step C O c hc) c h
+  refine ⟨True.intro, ?_, ?_⟩
+  · intro h; cases h
+  · intro _ h; cases h
+
+/-- **restart ⇒ header**: in every reachable trace the event that follows a successful
+`Negotiate` which returned a new connection layer is a stream header event (header written
+by the initiator, header read by the receiver) -/
+theorem C01_restart_header {c : Conf} (h : Reach C O st0 script picks c) : RestartOK c.tr :=
+  (invE_reach h).ok
+
+theorem invC_reach {c : Conf} (h : Reach C O st0 script picks c) : InvC st0 c := by
+  refine reach_ind (P := InvC st0) ?_ (fun c _ hc => invC_step C O st0 c hc) c h
+  constructor
+  · intro _; right; right; left; rfl
+  · intro h; cases h
+
+theorem invC2_reach {c : Conf} (h : Reach C O st0 script picks c) : InvC2 st0 c := by
+  have key : ∀ c, Reach C O st0 script picks c → InvC st0 c ∧ InvC2 st0 c := by
+    intro c hc
+    refine reach_ind (P := fun c => InvC st0 c ∧ InvC2 st0 c) ?_ ?_ c hc
+    · refine ⟨invC_reach (C := C) (O := O) ⟨0, rfl⟩, ?_, ?_, ?_⟩
+      · intro _ _ h; cases h
+      · intro _ _ h; cases h
+      · intro _ hr; exact Or.inl hr
+    · intro c _ ⟨h1, h2⟩
+      exact ⟨invC_step C O st0 c h1, invC2_step C O st0 c h1 h2⟩
+  exact (key c h).2
+
+/-- … and the session is never reported established with a restart still pending, unless a
+feature itself put the ready bit into its mask (or the caller passed it in): the library
+never adds `Ready` to a result that carries a new connection layer -/
+theorem C01_no_ready_on_restart {c : Conf} (h : Reach C O st0 script picks c) (hd : c.pc = .done)
+    (hr : headRestart c.tr = true) : has st0 bReady = true ∨ FeatReady c.tr := by
+  have hrd := (invC_reach h).doneReady hd
+  have hdo := (invE_reach h).top (Or.inr hd) hr
+  rcases (invC2_reach h).top (Or.inr hd) hrd with h1 | h1 | h1
+  · exact Or.inl h1
+  · exact Or.inr h1
+  · rw [hdo] at h1; cases h1
+
+/-- **ready**: success is only reported with the ready bit set -/
+theorem C01_ready {c : Conf} (h : Reach C O st0 script picks c) (hd : c.pc = .done) :
+    has c.st bReady = true := (invC_reach h).doneReady hd
+
+/-! ### only what the current list offers -/
+
+theorem invF_reach {c : Conf} (h : Reach C O st0 script picks c) : InvF c := by
+  refine reach_ind (P := InvF) ?_ (fun c _ hc => invF_step C O c hc) c h
+  refine ⟨True.intro, ?_, ?_⟩
+  · intro h; cases h
+  · intro h; cases h
+
+/-- **advertised**: reading the trace newest first, every `Negotiate` call that is not the
+unconditional STARTTLS attempt is for a feature of the most recent features list
+(`lastList`): on the receiving side one of the features written into the list, on the
+initiating side one of the features kept from the list that was read -/
+theorem C01_advertised {c : Conf} (h : Reach C O st0 script picks c) : AdvOK c.tr := (invF_reach h).ok
+
+theorem C01_advertised_at {c : Conf} (h : Reach C O st0 script picks c) (l₁ l₂ : List Ev)
+    {f : Feature} {st : St} {req srv : Bool} {r : NegRes}
+    (ht : c.tr = l₁ ++ Ev.neg f st req false srv r :: l₂) : f ∈ lastList l₂ := by
+  have hok := C01_advertised h
+  rw [ht] at hok
+  clear ht
+  induction l₁ with
+  | nil => rcases hok.1 with h | h
+           · cases h
+           · exact h
+  | cons e l ih => exact ih hok.2
+
+theorem invP_reach {c : Conf} (h : Reach C O st0 script picks c) : InvP C c := by
+  refine reach_ind (P := InvP C) ?_ (fun c _ hc => invP_step C O c hc) c h
+  refine ⟨?_, ?_, ?_⟩
+  · intro h; cases h
+  · intro h; cases h
+  · intro _ _ h; cases h
+
+/-- what the initiator keeps of a features list are configured features whose masks held when
+the list was read -/
+theorem C01_cached_eligible {c : Conf} (h : Reach C O st0 script picks c) {st : St}
+    {fs : List Feature} (he : Ev.listIn st fs ∈ c.tr) : ∀ f ∈ fs, f ∈ C ∧ eligible st f = true :=
+  (invP_reach h).inOK st fs he
+
+theorem invL_reach {c : Conf} (h : Reach C O st0 script picks c) : InvL C c := by
+  refine reach_ind (P := InvL C) ?_ (fun c _ hc => invL_step C O c hc) c h
+  refine ⟨?_, ?_, ?_⟩
+  · intro _ h; cases h
+  · intro h; cases h
+  · intro _ _ _ h; cases h
+
+/-- **the receiver advertises exactly the configured features whose prerequisites hold**, in
+configuration order, whenever it writes a features list -/
+theorem C01_recv_advert {c : Conf} (h : Reach C O st0 script picks c) {st : St} {fs : List Feature}
+    {ok : Bool} (he : Ev.listOut st fs ok ∈ c.tr) : fs = C.filter (eligible st) :=
+  (invL_reach h).outOK st fs ok he
+
+/-! ### refusals -/
+
+theorem invG_reach {c : Conf} (h : Reach C O st0 script picks c) : InvG c := by
+  refine reach_ind (P := InvG) ?_ (fun c _ hc => invG_step C O c hc) c h
+  constructor
+  intro _ h; cases h
+
+/-- **a refused selection ends the negotiation**: the refusal is the last event, the outcome is
+a policy violation, and no callback runs after it -/
+theorem C01_recv_refuse {c : Conf} (h : Reach C O st0 script picks c) {n : FName}
+    (he : Ev.refuse n ∈ c.tr) : c.pc = .fail .policy ∧ ∃ rest, c.tr = .refuse n :: rest :=
+  let ⟨h1, rest, h2, _⟩ := (invG_reach h).refused n he
+  ⟨h1, rest, h2⟩
+
+/-- **the receiver runs a selection only if it may**: every `Negotiate` call on the receiving
+side is for a feature that is in the list just written (`C01_advertised`), whose namespace was
+not negotiated on this stream (`C01_once`), that is negotiable (`C01_negotiable`) and whose
+masks hold at that moment (`C01_prereq`); put together for the newest event -/
+theorem C01_recv_runs_only_allowed {c : Conf} (h : Reach C O st0 script picks c)
+    {f : Feature} {st : St} {req : Bool} {r : NegRes} {rest : List Ev}
+    (ht : c.tr = Ev.neg f st req false true r :: rest) :
+    f ∈ lastList rest ∧ f.name.ns ∉ segNs rest ∧ f.negotiable = true ∧ eligible st f = true := by
+  have hm : Ev.neg f st req false true r ∈ c.tr := by rw [ht]; exact List.mem_cons_self
+  exact ⟨C01_advertised_at h [] rest ht, C01_once_at h [] rest ht, C01_negotiable h hm, C01_prereq h hm⟩
 
 end XmppModel.Props.C01
